@@ -1033,6 +1033,45 @@ func buildGX(r *rng, o gxOpts) *GX {
 			return ""
 		}}
 	case 7: // Filter
+		if r.chance(1, 3) {
+			// a chain of 1-7 filters on one base, refined by TWO siblings with predicates of their own: the siblings
+			// (and the base) are separate, immutable generators however the chain is represented
+			base := rapid.IntRange(0, 999)
+			nch := r.between(1, 7)
+			for i := 0; i < nch; i++ {
+				k := 2 + i
+				base = base.Filter(func(v int) bool { return v%(k*7) != 1 })
+			}
+			chainOK := func(v int) bool {
+				for i := 0; i < nch; i++ {
+					if v%((2+i)*7) == 1 {
+						return false
+					}
+				}
+				return true
+			}
+			even := base.Filter(func(v int) bool { return v%2 == 0 })
+			odd := base.Filter(func(v int) bool { return v%2 == 1 })
+			desc := fmt.Sprintf("FilterSiblings(IntRange(0,999) x %d filters; .Filter(even) / .Filter(odd))", nch)
+			gen := rapid.Custom(func(t *rapid.T) any {
+				return [3]int{even.Draw(t, "even"), odd.Draw(t, "odd"), base.Draw(t, "base")}
+			})
+			return &GX{Desc: desc, Gen: gen, Rej: true, Check: func(v any) string {
+				w, ok := v.([3]int)
+				if !ok {
+					return fmt.Sprintf("%s returned %T", desc, v)
+				}
+				switch {
+				case w[0]%2 != 0 || !chainOK(w[0]):
+					return fmt.Sprintf("%s: the even sibling returned %d", desc, w[0])
+				case w[1]%2 != 1 || !chainOK(w[1]):
+					return fmt.Sprintf("%s: the odd sibling returned %d", desc, w[1])
+				case !chainOK(w[2]):
+					return fmt.Sprintf("%s: the base returned %d", desc, w[2])
+				}
+				return ""
+			}}
+		}
 		e := buildGX(r, sub)
 		m := uint64(r.between(2, 6))
 		keep := uint64(r.between(1, int(m)))
